@@ -163,7 +163,7 @@ func runC12(c *Ctx) {
 		"C12.3 service, mesh-gateway and server identities are signed only below the datacenter-equal edge",
 		"C12.4 every certificate template of the built-in provider takes its serial number from the replicated serial counter; leaf templates are not CAs",
 		"C12.5 the roots table is written only by the CAS setter and by restore; the setter rejects a set without exactly one active root before writing",
-		"C12.6 the CA manager never writes through a pointer to an object it read from the state store (rows are immutable; rotation works on copies)",
+		"C12.6 no function of agent/consul writes through a pointer that a state-store reader hands out as the stored row itself (rows are immutable outside a Raft apply; CA rotation works on copies)",
 	}
 	r.NotDecided = []string{"that the issued certificate carries exactly the authorised identity after the provider's template handling", "chain verification against the active root"}
 
